@@ -142,6 +142,12 @@ def run(ck):
 
     # ------------------------------------------------------------------ C08.8
     _save_writes_its_argument(ck)
+    # argument roles in the multi-pass coordinator (reference / query lists are both List[OpticalMap]: an exchange runs)
+    ck.clause("C08.9", "argument roles in the multi-pass coordinator: reference and query arguments are not exchanged")
+    from ..rules import role as R
+    n_roles = R.run_role_rule(ck, "C08.9", modules={"src.multi_pass_workflow_coordinator"})
+    ck.floor("C08.9 role bindings judged in the multi-pass coordinator", n_roles, 8)
+    ck.ok("C08.9", "multi_pass_workflow_coordinator", "src/multi_pass_workflow_coordinator.py", f"{n_roles} argument/attribute bindings carry compatible roles")
 
 
 def _resolve_input(ck, behaviours, execute, file_of):
